@@ -329,8 +329,8 @@ MODELS = [  # name, Pts, Boxes, KNN, MinD, MaxD, Iter
 ]
 MODELS_THOROUGH = [
     ("plane-wall-k2-i4", "Pts332", "Wall", 2, 1, 6, 4),
-    ("layers-twoboxes-k2-i4", "Pts222", "TwoBoxes", 2, 1, 6, 4),
-    ("cube-wall-k3-i3", "Pts333", "Wall", 3, 1, 7, 3),
+    ("layers-twoboxes-k2-i3", "Pts222", "TwoBoxes", 2, 1, 6, 3),     # (i4: 1.7 M behaviours, the invariant run needs > 50 min)
+    ("cube-wall-k3-i2", "Pts333", "Wall", 3, 1, 7, 2),               # (i3: 3.4 M behaviours)
 ]
 
 
